@@ -22,7 +22,7 @@ _WN = "Hook H1 replaces the kernel audit map (the aya glue below redirector::loo
 
 check("C01", "exploration", _W + "every generated request is judged against a decision table written from the statement (traversal, unattributed, unknown caller, self, non-elevated, enforced denial, forward) "
       "by observing client status and every byte at the mocks; thousands of requests per run across all branches, branch counts in the evidence.",
-      _WN + " The 500 branch (policy lookup failure) is not reachable from the boundary.", "runtime monitoring: hostile generated workload through the real proxy + reference decision table over boundary observations", "DESIGN.md 3 C01")
+      _WN + " The policy-lookup-failure branch is driven by a dedicated probe (key-keeper state actor closed), not from the network boundary.", "runtime monitoring: hostile generated workload through the real proxy + reference decision table over boundary observations", "DESIGN.md 3 C01")
 check("C03", "exploration", "Pure half: tens of thousands of authorize() calls over generated rule sets/modes/URLs/claims (non-elevated WireServer/HostGAPlugin callers and the self destination must be Forbidden, controls must follow the reference RBAC). "
       "End-to-end half: " + _W + "non-elevated real processes and self-destination records under every mode.", _WN,
       "runtime monitoring: generated inputs through the real authorizer (RPC) and through the real proxy, reference oracle with controls against vacuity", "DESIGN.md 3 C03")
@@ -37,16 +37,16 @@ check("C07", "exploration", _W + "histories with immediate source-port reuse (wi
       "user-dependent rule set; oracles over client status, upstream claims header, the stand-in event log (lookup then remove per port) and the agent's own connection-summary lines; delay points on in half of the runs.", _WN,
       "runtime monitoring: history oracle with unique ids + event-log checker (lookup/remove pairing) under concurrency; plus a real-kernel section (real BPF maps through the production aya glue, connects diverted by the kernel's connect4 program)", "DESIGN.md 3 C07, 7.5")
 check("C10", "exploration", _W + "8-32 keep-alive clients plus the real EventReader sign requests while the latched key is replaced/cleared thousands of times through the key keeper's own API, with the get_key delay point (H2) "
-      "widening the window; the mock verifies each MAC under the secret registered for the announced key id; the evidence counts requests that straddled a rotation (>=300 required).", _WN + " Interleavings are sampled, not enumerated.",
+      "widening the window; the mock verifies each MAC under the secret registered for the announced key id; the evidence counts requests that straddled a rotation (>=300 required); in some shards the mock host rejects 30% of the agent's own calls (401/403/500) so that whatever the agent re-sends is judged too.", _WN + " Interleavings are sampled, not enumerated.",
       "runtime monitoring: stress + injected delays at an existing await + per-request HMAC oracle keyed by announced key id", "DESIGN.md 3 C10")
 check("C11", "exploration", _W + "one request/caller sequence (many identical denials, concurrent connections) is replayed under allow-all, enforce, audit and disabled for every endpoint; oracles: enforce->403 and nothing upstream, "
-      "audit->relayed identically to the allowed run, disabled->rules ignored, and conservation of the failed-authorization summary (getter and published status.json) against the multiset of reference denials.", _WN,
+      "audit->relayed identically to the allowed run, disabled->rules ignored, and conservation of the failed-authorization summary (getter and published status.json) against the multiset of reference denials; a burst of several hundred simultaneous denials and a history in which every caller is denied on all three endpoints (same address/other port, other address).", _WN,
       "runtime monitoring: differential replay across modes + conservation checker over the published summary", "DESIGN.md 3 C11")
 check("C14", "exploration", _W + "echo-scripted mocks; requests/responses with random bodies up to 100KiB/8MiB/1MiB, content-length/chunked/close framing, TCP segmentation at random offsets, keep-alive with up to 15 requests, "
-      "pipelining depth 1-4 and 8-16 concurrent connections; byte/multiset comparison at both ends, response-to-request matching by embedded ids.", _WN + " Header order across names and name case are not compared.",
+      "pipelining depth 1-4 and 8-16 concurrent connections; byte/multiset comparison at both ends, response-to-request matching by embedded ids; hosts that announce Connection: close and then close (the next request must be relayed, after a reconnect only if the client connection was closed). Thorough adds a slice with the shim under valgrind memcheck.", _WN + " Header order across names and name case are not compared.",
       "runtime monitoring: byte-level differential oracle at mock host and client socket over generated framings and schedules", "DESIGN.md 3 C14")
 check("C15", "exploration", _W + "bodies around both limits (100KiB, 100MiB) declared by Content-Length or chunked on exempt URLs (case variants) and near-miss URLs; oversize must be 4xx with zero bytes upstream, "
-      "within-limit must arrive with identical length and SHA-256; 100MiB bodies are really streamed.", _WN,
+      "within-limit must arrive with identical length and SHA-256; 100MiB bodies are really streamed (also chunked, crossing the limit mid-stream); keep-alive scripts mix both request classes on one connection.", _WN,
       "runtime monitoring: boundary-value workload through the real proxy + byte counter / hash oracle at the mock host", "DESIGN.md 3 C15")
 
 check("C08", "fault_enumeration", "The real agent binary runs under strace which kills it at the entry of the k-th invocation of each state-changing syscall (file and socket calls of the worker thread, enumerated from a recording pass) "
@@ -60,16 +60,16 @@ check("C09", "exploration", "The real KeyKeeper polls a gated mock WireServer in
       "runtime monitoring: history generator + reference function of the latest host answer, lock-step via a gate at the mock host", "DESIGN.md 3 C09")
 check("C12", "exploration", "Taint search: every key the mock host latched is searched (hex either case, 16-digit windows, raw bytes, base64) in everything a user can see - all files outside the key directory, stdout/stderr, the captured serial console, "
       "bytes returned to clients, telemetry uploads, upstream request bytes - over real-binary histories (latch, traffic, /provision, faults, rotation, disable/enable, restart) and a shim-hosted telemetry/status pipeline; strace checks chmod 0700 precedes the first key file.",
-      "Only latched keys are secrets of interest; memory/core dumps are out of scope. Evidence lists bytes scanned per sink.", "runtime monitoring: taint/needle search over all observable sinks + syscall-order monitor (strace)", "DESIGN.md 3 C12")
+      "Secrets of interest: every latched key and every key the host delivered inside a malformed key document (wrong member type, missing/extra member, truncated, trailing bytes); chown is made to fail (strace inject) in some histories; memory/core dumps are out of scope. Evidence lists bytes scanned per sink.", "runtime monitoring: taint/needle search over all observable sinks + syscall-order monitor (strace)", "DESIGN.md 3 C12")
 check("C13", "exploration", "Process-wide panic hook plus liveness probes while the anchored sites are driven with strings whose multi-byte characters straddle the 1024/4096 cut offsets at every alignment, header values with bytes >= 0x80, "
-      "very long URLs, real callers with multi-byte command lines/user names, and hostile host replies (content types x charsets x frame splits, odd-length UTF-16).",
+      "very long URLs, real callers with multi-byte command lines/user names, and hostile host replies (content types x charsets x frame splits, odd-length UTF-16); the key keeper against hostile documents with notifications aimed at the end of its poll interval; thousands of impatient clients that disconnect 0-2 ms after a valid request while probes and the status task run. Thorough adds the same layers with the shim under valgrind memcheck, and Miri replays.",
       "A site not reached by the workload is reported per site in the evidence; debug build (overflow checks on).", "runtime monitoring: panic observer + boundary-alignment input generator at every anchored truncation/decoding site + background-task liveness under hostile host replies, timed notifications and delay points; Miri replay in thorough", "DESIGN.md 3 C13, 7.2")
 check("C16", "exploration", "Fresh shim process per history on a multi-thread runtime: real provision functions called from separate threads in production-shaped roles with H2 delay points between the two actor messages; every call is timed at the caller and each "
-      "query (getter and HTTP /provision with hostile ticks) must be explained by some linearization of a sequential spec written from the statement; quiescent invariant; status.tag read in a tight loop and watched with inotify.",
+      "query (getter and HTTP /provision with hostile ticks) must be explained by some linearization of a sequential spec written from the statement; quiescent invariant, also after race cycles in which the last readiness report and a reset start together; status.tag read in a tight loop and watched with inotify.",
       "Per-query linearizability (not joint); ticks inside the establishing operation's interval are not judged.", "runtime monitoring: recorded concurrent histories + linearizability search against a sequential model, inotify/torn-read monitor for the tag file", "DESIGN.md 3 C16")
-check("C19", "exploration", "Real RollingLogger, event_logger and AuthorizationRulesForLogging::write_all driven through PRNG histories with small limits, restarts and foreign files; the directory is listed after every operation and judged against the configured bounds.",
+check("C19", "exploration", "Real RollingLogger, event_logger and AuthorizationRulesForLogging::write_all driven through PRNG histories with small limits, restarts, foreign files and listing faults in the shared directory (dangling symlink, concurrent renames); the directory is listed after every operation and judged against the configured bounds.",
       "Concurrent writers are not judged; earlier runs use the same settings.", "runtime monitoring: invariant check on directory listings at every quiescent point of generated histories", "DESIGN.md 3 C19")
-check("C20", "exploration", "All 2^L observation sequences up to L=16 (quick) / 22 (thorough), threshold-straddling and saturation-length runs through the real StatusState, and notification sequences through the real write_state_event, judged by the statement's trace predicates; "
+check("C20", "exploration", "All 2^L observation sequences up to L=16 (quick) / 22 (thorough), threshold-straddling and saturation-length runs through the real StatusState, and notification sequences through the real write_state_event, judged by the statement's trace predicates; a sandboxed monitor layer drives the real reporting functions of the monitor loop (aggregate status file ok/missing/corrupt/version mismatch, update command ok/failed/not launched) and judges the written <seq>.status file and the notifications by subject; "
       "exhaustive for the stated depths.", "Only what the statement fixes is required (a variant with a higher threshold still passes).", "runtime monitoring: exhaustive bounded enumeration through the real code with trace predicates (reference automaton compared for information)", "DESIGN.md 3 C20")
 
 check("C06", "exploration", "A user-space ASan+UBSan build of the unmodified eBPF C program runs generated worlds (tasks with uid!=gid, threads, the agent's own pid, TCP/UDP, IPv4/IPv6, listed and near-miss destinations, failing connects) with the two hook "
@@ -80,6 +80,6 @@ check("C17", "exploration", "The real (release-profile) proxy_agent_setup binary
       "are judged by an executable file-tree model of each command's stated effect, byte-identity after backup;install;restore, stop-before-change/start-after-change, and confinement of all changes (overlay upper dir + strace of write-type syscalls).",
       "File modes are not compared; the extension's orchestration of the tool is not driven. Release profile because clap's debug assertions abort debug builds on `restore`.",
       "runtime monitoring: real binary in a private root + file-tree reference model + syscall/overlay confinement monitor", "DESIGN.md 3 C17")
-check("C18", "exploration", "The real EventReader (paused tokio clock) consumes generated event files (hostile markup text with unique ids, sizes around and above the 64KiB batch bound, corrupt files) against a mock host with upload fault patterns; every POST body "
+check("C18", "exploration", "The real EventReader (paused tokio clock) consumes generated event files (hostile markup text with unique ids, sizes around and above the 64KiB batch bound, corrupt files) against a mock host with upload fault patterns (statuses, resets, acknowledgements with truncated or chunked bodies); every POST body "
       "is parsed with expat and judged: size bound, flat Param structure, Context1 equals the original text, no id in two different batches or in a batch acknowledged twice, no loss without faults, termination and file removal.",
       "Event text is free of control characters as the statement says; identical re-sends after a failed upload are the documented retry.", "runtime monitoring: unique-id history checker (at-most-once) + independent XML parser oracle under injected upload faults, virtual time", "DESIGN.md 3 C18")
